@@ -12,6 +12,10 @@ Init == st = EmptyReg /\ l = 1 /\ nbad = 0
 Add(e) == LET r == RegApply(st, e.op)
               good == Chk(r.res = e.res, <<"result of", e.op, "expected", r.res, "observed", e.res>>)
           IN st' = r.st /\ nbad' = IF good THEN nbad ELSE nbad + 1
+(* "bulk": n registrations with generated names in one event; the harness reports how many calls succeeded *)
+Bulk(e) == LET good == /\ Chk(BulkFresh(st, e.op), <<"generator: bulk names are not new", e.op>>)
+                       /\ Chk(e.nok = e.op.n, <<"bulk registration of new names:", e.op.n, "calls,", e.nok, "succeeded">>)
+           IN st' = BulkApply(st, e.op) /\ nbad' = IF good THEN nbad ELSE nbad + 1
 Built(e) ==
   LET good == /\ \A i \in 1..Len(e.probes) :
                    Chk(e.probes[i] = Probe(st, e.probes[i].name),
@@ -22,7 +26,8 @@ Built(e) ==
   IN UNCHANGED st /\ nbad' = IF good THEN nbad ELSE nbad + 1
 Next == /\ l <= Len(Rec)
         /\ IF Rec[l].ev = "reset" THEN st' = EmptyReg /\ UNCHANGED nbad
-           ELSE IF Rec[l].ev = "add" THEN Add(Rec[l]) ELSE Built(Rec[l])
+           ELSE IF Rec[l].ev = "add" THEN Add(Rec[l])
+           ELSE IF Rec[l].ev = "bulk" THEN Bulk(Rec[l]) ELSE Built(Rec[l])
         /\ l' = l + 1
 Spec == Init /\ [][Next]_vars
 Accepted == IF TLCGet("stats").diameter = Len(Rec) + 1 THEN PrintT(<<"TRACE-CONSUMED", Len(Rec)>>)
